@@ -72,6 +72,41 @@ CHECKS.update({
             "DESIGN.md 7 C20"),
 })
 
+CHECKS.update({
+    "C11": ("exploration",
+            TECH + "always-on invariant monitor: every header returned in every simulated reader run (all scenarios, incl. corrupted "
+            "storage) is scanned; a dedicated seeded hostile-name scenario feeds the monitor",
+            "Exploration at the weakest level: the property is a pure-input invariant; the simulator contributes the monitor (checked in "
+            "C08/C12/C13/C15/C16/C20 runs too) and a seeded generator over the alphabet {. / \\ 0xFF NUL | a A} for in-header names, "
+            "0x01/0x02 headers and symlink forms under every OS byte class. Not the exhaustive enumeration the quantifier mentions.",
+            "Random sampling; strings up to length 6 are each reached with high probability in the thorough tier only.",
+            "DESIGN.md 7 C11"),
+    "C12": ("fault_enumeration",
+            TECH + "stored-byte faults as the workload: all 255 substitutions at every header byte, every truncation length and "
+            "length-field perturbations for each sampled header, judged by an independent framing checker",
+            "Fault enumeration, complete over the single-fault space for each sampled well-formed header (levels 0-3, files, "
+            "directories, symlinks, with/without extended headers, common CRC, Unix area), stream kinds rotating. One-directional "
+            "oracle written from the statement: checker says FAIL => next_file returns NULL for it and for all later calls.",
+            "The checker asserts only the rules listed in DESIGN appendix E; nothing is concluded when it passes a header.",
+            "DESIGN.md 7 C12, appendix E"),
+    "C18": ("exploration",
+            TECH + "simulated terminal: stdout and stderr of every in-process CLI run are scanned byte by byte; a dedicated seeded scenario "
+            "puts bytes 0x01-0xFF into every archive-derived string incl. the method field",
+            "Exploration: invariant monitor on the captured terminal of every CLI run (also in C06/C07/C08/C10/C19 runs) plus a hostile-"
+            "string generator across modes l lv v vv t x xn xq0-2 xi p e with filters on SimFS.",
+            "Pure-input invariant claimed at the weakest level; file data dumped by 'p' is generated printable so that the whole output can be scanned.",
+            "DESIGN.md 7 C18"),
+    "C19": ("exploration",
+            TECH + "simulated clock (time()), archive mtime (fstat), fixed-offset time zone and stream kind (file / stdin pipe / stdin "
+            "seekable) around an independent list renderer fed from generator ground truth",
+            "Exploration: stdout of l/lv/v/vv x quiet levels x wildcard lists must equal the reference rendering byte for byte; 'now' and "
+            "member time stamps are placed on both sides of the six-month boundary, at 0, 2^31 and 2^32-1; sizes up to 2^32-1; every OS "
+            "byte; Unix and OS-9 permission words; header levels 0-3.",
+            "Renderer written from the column specification (DESIGN appendix F); ratio accepted in single or double precision; "
+            "printable names only; totals below 2^32; fixed-offset zones (no DST rules).",
+            "DESIGN.md 7 C19, appendix F"),
+})
+
 NOT_APPLICABLE = {
     "C01": "pure function of the compressed bytes (decode(serialise(cmds)) == expand(cmds)): no schedule, clock, fault or stream behaviour to simulate",
     "C02": "pure function of the compressed bytes (adaptive tree is internal state of a deterministic fold): nothing for a simulator to vary",
